@@ -538,3 +538,22 @@ pub proof fn lemma_steps_symmetric<T: Eq + PartialOrd + Send + Sync, A: Clone>(g
         assert(in_row(g.successors_vec@[px as int]@, pa));
     }
 }
+
+// [C20.steps.backed_by_a_stored_edge_on_undirected_graphs] a neighbour listed by the traversal rows has a stored edge list under the canonical key
+pub proof fn lemma_steps_are_stored_undirected<T: Eq + PartialOrd + Send + Sync, A: Clone>(g: Graph<T, A>)
+    requires
+        g.wf_nodes(), g.wf_traversal(), !g.specs.directed,
+    ensures
+        steps_are_stored(g),
+{
+    assert forall|a: T, x: T| #[trigger] steps_to(g, a, x) implies
+            g.has_pair(g.canon(g.nodes_map@[a], g.nodes_map@[x]).0, g.canon(g.nodes_map@[a], g.nodes_map@[x]).1) by {
+        let pa = g.nodes_map@[a];
+        let px = g.nodes_map@[x];
+        assert(g.predecessors_vec@[pa as int]@.len() == 0);
+        let row = g.successors_vec@[pa as int]@;
+        assert(in_row(row, px));
+        let k = choose|k: int| 0 <= k < row.len() && (#[trigger] row[k]).node_index == px;
+        assert(g.succ_entry_ok(pa, g.successors_vec@[pa as int]@[k]));
+    }
+}
